@@ -47,7 +47,10 @@ def method(ex, recv, name, args, kwargs, node):
         if name == "pop":
             kt = recv.kty.unwrap(args[0])
             if len(args) > 1:
-                raise Unsupported("dict.pop with default")
+                if args[1] is not None:
+                    raise Unsupported("dict.pop with a non-None default")
+                _wb(ex, node, recv.with_(dom=z3.Store(recv.dom, kt, False)))
+                return VOpt(recv.dom[kt], recv.vty.wrap(recv.val[kt]))
             ex.implicit_exc("KeyError", recv.dom[kt], ex.site(node))
             _wb(ex, node, recv.with_(dom=z3.Store(recv.dom, kt, False)))
             return recv.vty.wrap(recv.val[kt])
